@@ -853,6 +853,59 @@ def evaluate(ctx, cases, raw_table):
             ctx.violation(case, v)
 
 
+def concat_flags_cases(ctx):
+    """flag selection by name pushed through a ConcatenatedDataSet (v2 and v3 files opened together): the
+    selection reaches each part through a single _set_keep call, without the getter/setter round trip of
+    DataSet.select, so a bit-order slip in a setter shows only here"""
+    import random
+    import h5py
+    import katdal
+    from harness import h5synth
+    out = []
+    for ver in (2, 3):
+        mk = h5synth.make_v3 if ver == 3 else h5synth.make_v2
+        paths, raws = [], []
+        try:
+            for k in range(2):
+                rng = random.Random(1000 * ver + k)
+                path = os.path.join(_tmpdir(), f'c16_concat_v{ver}_{k}.h5')
+                t0 = (1500000000.0 if ver == 3 else 1300000000.0) + 1000.0 * k
+                syn = mk(path, rng, T=6, F=6, n_ants=2, shuffle_bls=False, t0=t0, open=False, seed=7 + k)
+                B = syn.shape[2]
+                mine = all_bytes_array((syn.n_stored_dumps, 6, B), 99 + k)
+                with h5py.File(path, 'r+') as f:
+                    (f['Data'] if ver == 3 else f['Markup'])['flags'][...] = mine
+                paths.append(path)
+                raws.append(mine[:6])
+            d = katdal.open(paths)
+        except Exception as e:   # noqa: BLE001
+            ctx.advise(f'concatenated v{ver} flag case could not be built: {type(e).__name__}: {str(e)[:80]}')
+            continue
+        raw = np.concatenate(raws)
+        names = enc_list(DOCUMENTED)
+        order = 'lsb' if ver == 3 else 'msb'
+        sels = [{'k': 'str', 'v': 'cam'}, {'k': 'str', 'v': 'static,predicted_rfi'},
+                {'k': 'list', 'v': ['ingest_rfi']}, {'k': 'str', 'v': 'data_lost, cal_rfi,cam'}]
+        for sel in sels:
+            rep = common.run_model('C16', [f'mask {order} {names} {enc_sel(sel)}'])[0]
+            m, mspec = (int(x) for x in rep.split(' '))
+            case = {'kind': 'concat', 'ds': {'fmt': f'v{ver}-concat'}, 'sel': sel}
+            try:
+                d.select(flags=sel_to_py(sel))
+                got = np.asarray(d.flags[:])
+            except Exception as e:   # noqa: BLE001
+                out.append((case, f'select(flags={sel_to_py(sel)!r}) on concatenated v{ver} files raised {type(e).__name__}'))
+                continue
+            want = (raw & np.uint8(mspec)) != 0
+            ctx.tag(f'concat-v{ver}')
+            ctx.count(json.dumps(case, sort_keys=True), True)
+            if got.shape != want.shape or not np.array_equal(got, want):
+                w = np.argwhere(got != want)[0].tolist() if got.shape == want.shape else []
+                out.append((case, f'concatenated v{ver} files, select(flags={sel_to_py(sel)!r}): flags differ from '
+                                  f'(raw & {mspec}) != 0 at {w}'))
+    return out
+
+
 def static_table_check(ctx):
     """flags.py against the documented table: a concrete input for every inconsistency (replayable as a sel case
     on v4 is not needed: the inconsistency itself is the failing input)"""
@@ -902,6 +955,8 @@ def run(ctx):
             evaluate(ctx, gen_hist_cases(ctx, specs, 3 * n_hist, hist_specs, raw_table), raw_table)
         for msg in static_table_check(ctx):
             ctx.violation({'kind': 'table', 'ds': {'fmt': 'flags.py'}}, msg)
+        for case, msg in concat_flags_cases(ctx):
+            ctx.violation(case, msg)
         for ds in _DS_CACHE.values():
             if ds.n_lost:
                 ctx.tag('ds-data-lost')
@@ -931,6 +986,10 @@ def replay(ctx, rep):
         if case.get('kind') == 'table':
             for msg in static_table_check(ctx):
                 ctx.violation(case, msg)
+            return
+        if case.get('kind') == 'concat':
+            for c, msg in concat_flags_cases(ctx):
+                ctx.violation(c, msg)
             return
         evaluate(ctx, [case], raw_table)
     build, _ = _run(ctx, body)
